@@ -42,6 +42,7 @@ fn main() {
             0
         }
         "survey" => survey(&args),
+        "nest" => verif::props::c11::child_main(&args),
         "list" => {
             for p in props::all() {
                 println!("{}", p.id());
